@@ -1,0 +1,27 @@
+//! Verification hook point (only compiled with `--cfg humphrey_verif`).
+//!
+//! Call sites inside the crate report that they reached a linearization point by calling
+//! [`point`] with a static name and two integers. Unless a conformance harness has installed a
+//! callback with [`set_hook`], `point` does nothing. The callback runs on the calling thread, so a
+//! harness may both record the event (ordering it with its own sequence counter) and block the
+//! thread to force a particular schedule. Nothing here changes the behaviour of the crate.
+
+use std::sync::{Arc, RwLock};
+
+/// The callback type: `(point name, first argument, second argument)`.
+pub type Hook = Arc<dyn Fn(&'static str, i64, i64) + Send + Sync>;
+
+static HOOK: RwLock<Option<Hook>> = RwLock::new(None);
+
+/// Installs (or with `None` removes) the process-wide callback.
+pub fn set_hook(hook: Option<Hook>) {
+    *HOOK.write().unwrap_or_else(|e| e.into_inner()) = hook;
+}
+
+/// Reports that the calling thread reached the named point.
+pub fn point(name: &'static str, a: i64, b: i64) {
+    let hook = HOOK.read().unwrap_or_else(|e| e.into_inner()).clone();
+    if let Some(hook) = hook {
+        hook(name, a, b);
+    }
+}
